@@ -11,11 +11,26 @@ ExportLeaves == (nc' = MaxC /\ ndel' = MaxDeliver) => Export
 \* while an implementation that walks like the pinned commit (or similarly) fails it.
 RefAll == RefCtr /\ RefHeads /\ RefFHeads /\ RefDel /\ RefRegLWW /\ MergeNeverFails
 ExportDeviations == IF RefAll THEN (RefAll' \/ Export) ELSE FALSE   \* deviated states are not extended
-\* Bulk deliveries (simulation): the highest node never writes and receives nothing until every commit exists; then it is
-\* handed heads of the writers only, so each of its merges walks a whole unmerged history (diamonds with branches of
-\* different lengths, fields written on one branch only) in one go - the case the per-commit deliveries rarely produce.
+\* Bulk deliveries (simulation): staged so that most behaviours are diamonds. The writers (every node but the highest)
+\* all create the document, diverge with local updates, exchange heads and one of them writes on top of both branches;
+\* only then the highest node (Sink), which never wrote and has seen nothing, is handed heads: each of its merges walks a
+\* whole unmerged history (branches of different lengths, fields written on one branch only) in one go - the case the
+\* per-commit deliveries of the other generators rarely produce.
 Sink == CHOOSE n \in Nodes : \A m \in Nodes : m <= n
-BulkNext == \/ \E n \in Nodes \ {Sink} : Create(n) \/ Update(n) \/ \E c \in Ids : Deliver(n, c)
-            \/ nc = MaxC /\ \E c \in UNION {hd[m] : m \in Nodes \ {Sink}} : Deliver(Sink, c)
+W == Nodes \ {Sink}
+OthersHeads(n) == UNION {hd[m] : m \in W \ {n}}
+BulkNext ==
+  \/ /\ \E n \in W : mrg[n] = {}
+     /\ \E n \in W : mrg[n] = {} /\ Create(n)
+  \/ /\ \A n \in W : mrg[n] # {}
+     /\ nc < MaxC - 1 /\ \E n \in W : Update(n)
+  \/ /\ \A n \in W : mrg[n] # {}
+     /\ nc = MaxC - 1
+     /\ \E n \in W : IF OthersHeads(n) \subseteq mrg[n] THEN Update(n)
+                     ELSE \E c \in OthersHeads(n) \ mrg[n] : Deliver(n, c)
+  \/ nc = MaxC /\ \E c \in UNION {hd[m] : m \in W} : c \notin mrg[Sink] /\ Deliver(Sink, c)
 BulkSpec == Init /\ [][BulkNext]_vars
+\* exhaustive variant: export exactly the transitions in which the fresh sink merges a history of at least MinBulk commits
+MinBulk == 5
+ExportSink == (mrg[Sink] = {} /\ Cardinality(mrg'[Sink]) >= MinBulk) => Export
 =============================================================================
